@@ -29,6 +29,21 @@
 #include <xalanc/PlatformSupport/XalanOutputStreamPrintWriter.hpp>
 #include <xalanc/PlatformSupport/XSLException.hpp>
 #include <xalanc/Include/XalanMemoryManagement.hpp>
+#include <xalanc/XercesParserLiaison/XercesParserLiaison.hpp>
+#include <xalanc/XercesParserLiaison/XercesDocumentWrapper.hpp>
+#include <xalanc/XercesParserLiaison/XercesDOMSupport.hpp>
+#include <xercesc/framework/MemBufInputSource.hpp>
+#include <xalanc/PlatformSupport/XalanDOMStringCache.hpp>
+#include <xalanc/XalanTransformer/XalanDocumentBuilder.hpp>
+#include <xercesc/sax2/SAX2XMLReader.hpp>
+#include <xalanc/XPath/XPathEvaluator.hpp>
+#include <xalanc/XPath/XObject.hpp>
+#include <xalanc/XPath/NodeRefList.hpp>
+#include <xalanc/XalanSourceTree/XalanSourceTreeDOMSupport.hpp>
+#include <xalanc/XalanSourceTree/XalanSourceTreeParserLiaison.hpp>
+#include <xalanc/XalanDOM/XalanDocument.hpp>
+#include <xalanc/XalanDOM/XalanElement.hpp>
+#include <xercesc/sax2/XMLReaderFactory.hpp>
 
 #include <cxxabi.h>
 #include <dlfcn.h>
@@ -77,7 +92,17 @@ static void emit(const std::string& s)
 }
 
 // ---- symbolised stack (nearest exported symbol, demangled, parameter lists stripped) -------------------
+static std::string frameNameUncached(void* addr);
 static std::string frameName(void* addr)
+{
+    // one entry per return address: the counting runs symbolise a stack for every request of a scenario
+    static std::unordered_map<void*, std::string>* cache = new std::unordered_map<void*, std::string>;
+    std::unordered_map<void*, std::string>::iterator i = cache->find(addr);
+    if (i != cache->end()) return i->second;
+    return (*cache)[addr] = frameNameUncached(addr);
+}
+
+static std::string frameNameUncached(void* addr)
 {
     Dl_info info;
     if (!dladdr(addr, &info) || info.dli_sname == 0) return "?";
@@ -152,6 +177,8 @@ public:
     bool        reallyFree = std::getenv("C19_REALLY_FREE") != 0;
     bool        recordArena = false;                 // count run: which arena allocators created blocks
     std::map<std::string, long>  arenaAllocs;        // allocator type -> allocation requests made under allocateBlock()
+    bool        recordSites = std::getenv("C19_LEAKSITES") != 0;    // diagnosis: call stack of every request, by id
+    std::map<long, std::string>  sites;
 
     FaultManager() : phase(P_NONE), failPhase(P_NONE), failAt(0), fired(false), excKind(EXC_OOM),
                      foreign(0), dbl(0), nullFrees(0), nextId(0), tracing(false)
@@ -199,6 +226,7 @@ public:
         long id = ++nextId;
         freed.erase(p);             // only possible in really-free mode (address reuse)
         live[p] = id;
+        if (recordSites) sites[id] = stackString(2, 12);
         if (tracing) trace.push_back(id);
         return p;
     }
@@ -227,6 +255,10 @@ struct Scenario
 {
     std::string xsl, xml;   // texts
     bool        direct;
+    bool        builder = false;            // api "builder" / "crossb": the source is a XalanDocumentBuilder fed by a SAX2 reader
+    bool        xdom = false;               // api "xdom": parseSource(..., useXercesDOM = true)
+    bool        cross = false;              // api "cross": transformer A (manager g_other) compiles and parses, transformer B (the
+                                            //   armed manager) transforms A's parsed source with A's compiled stylesheet
     bool        writer = false;             // api "writer": ONE application-owned XalanStdOutputStream + XalanOutputStreamPrintWriter
     std::vector<std::string> more;          //   receives the results of xsl, more[0], more[1], ... (different xsl:output encodings)
 };
@@ -247,6 +279,9 @@ static PlainManager g_plain;
 static void setApi(Scenario& sc, const char* xslPath, const std::string& api)
 {
     sc.direct = api == "direct" || api == "writer";
+    sc.xdom = api == "xdom";
+    sc.cross = api == "cross" || api == "crossb";
+    sc.builder = api == "builder" || api == "crossb";
     sc.writer = api == "writer";
     if (sc.writer)
     {
@@ -305,8 +340,14 @@ static void stage(const char* s) { emit(std::string("stage=") + s + "\n"); }
 
 // Runs the phases of one scenario on `fm`.  After a phase that did not end "ok" the remaining working
 // phases are skipped and the transformer is destroyed (what a caller does after a failure).
+class FaultManager;
+static FaultManager* g_other = 0;      // second manager of the "cross" api (never refuses); its ledger is part of every summary
+
 static void runScenario(FaultManager& fm, const Scenario& sc, Result& r, std::ostream* warn)
 {
+    // cross: the objects are made by transformer A under manager g_other and used by transformer B under `fm`
+    XalanTransformer* ta = 0;
+    void* memA = 0;
     for (int i = 0; i < P_NPHASE; ++i) r.what[i] = "skipped";
     XalanTransformer* t = 0;
     const XalanCompiledStylesheet* css = 0;
@@ -327,23 +368,46 @@ static void runScenario(FaultManager& fm, const Scenario& sc, Result& r, std::os
     r.what[P_CTOR] = guarded([&]() { t = ::new (mem) XalanTransformer(fm); return 0; });
     if (r.what[P_CTOR] != "ok") { good = false; t = 0; std::free(mem); }
     if (t) t->setWarningStream(warn);
+    if (good && sc.cross)
+    {
+        memA = std::malloc(sizeof(XalanTransformer));
+        std::string how = guarded([&]() { ta = ::new (memA) XalanTransformer(*g_other); return 0; });
+        if (how != "ok") { good = false; ta = 0; std::free(memA); r.what[P_CTOR] = how; }
+        if (ta) ta->setWarningStream(warn);
+    }
+    XalanTransformer* const maker = sc.cross ? ta : t;                 // who compiles and parses
+    MemoryManager& makerMgr = sc.cross ? static_cast<MemoryManager&>(*g_other) : static_cast<MemoryManager&>(fm);
 
     if (good && !sc.direct)
     {
         fm.phase = P_COMPILE; stage("compile");
         r.what[P_COMPILE] = guarded([&]() {
             std::istringstream in(sc.xsl);
-            XSLTInputSource is(&in, fm);
-            return t->compileStylesheet(is, css); });
+            XSLTInputSource is(&in, makerMgr);
+            return maker->compileStylesheet(is, css); });
         good = r.what[P_COMPILE] == "ok";
     }
     if (good && !sc.direct)
     {
         fm.phase = P_PARSE; stage("parse");
         r.what[P_PARSE] = guarded([&]() {
+            if (sc.builder)
+            {
+                XalanDocumentBuilder* const b = maker->createDocumentBuilder();
+                if (b == 0) return -1;
+                src = b;                 // owned by `maker` from here on
+                xercesc::SAX2XMLReader* const reader = xercesc::XMLReaderFactory::createXMLReader(&makerMgr);
+                struct Del { xercesc::SAX2XMLReader* p; ~Del() { delete p; } } del = { reader };
+                reader->setContentHandler(b->getContentHandler());
+                reader->setDTDHandler(b->getDTDHandler());
+                reader->setLexicalHandler(b->getLexicalHandler());
+                xercesc::MemBufInputSource mis(reinterpret_cast<const XMLByte*>(sc.xml.data()), sc.xml.size(), "mem", false, &makerMgr);
+                reader->parse(mis);
+                return 0;
+            }
             std::istringstream in(sc.xml);
-            XSLTInputSource is(&in, fm);
-            return t->parseSource(is, src); });
+            XSLTInputSource is(&in, makerMgr);
+            return maker->parseSource(is, src, sc.xdom); });
         good = r.what[P_PARSE] == "ok";
     }
     if (good)
@@ -385,6 +449,12 @@ static void runScenario(FaultManager& fm, const Scenario& sc, Result& r, std::os
             return 0; });
         std::free(mem);
     }
+    if (ta)
+    {
+        std::string how = guarded([&]() { ta->~XalanTransformer(); return 0; });
+        std::free(memA);
+        if (how != "ok" && r.what[P_DESTROY] == "ok") r.what[P_DESTROY] = how;
+    }
     if (sc.writer)
     {
         std::string how = guarded([&]() { ::delete pw; pw = 0; ::delete os; os = 0; return 0; });
@@ -398,7 +468,9 @@ static std::string summary(const FaultManager& fm, const Result& r)
 {
     std::ostringstream o;
     for (int p = P_CTOR; p <= P_DESTROY; ++p) o << " " << phaseNames[p] << "=" << r.what[p];
-    o << " live=" << fm.live.size() << " foreign=" << fm.foreign << " double=" << fm.dbl << " nullfree=" << fm.nullFrees;
+    size_t live = fm.live.size(); long foreign = fm.foreign, dbl = fm.dbl;
+    if (g_other != 0 && g_other != &fm) { live += g_other->live.size(); foreign += g_other->foreign; dbl += g_other->dbl; }
+    o << " live=" << live << " foreign=" << foreign << " double=" << dbl << " nullfree=" << fm.nullFrees;
     return o.str();
 }
 
@@ -445,6 +517,7 @@ static int childBody(const Scenario& sc, int ph, long k, int exc, unsigned long 
     alarm(60);
     std::ostringstream warn;
     FaultManager* fm = new FaultManager;
+    g_other = sc.cross ? new FaultManager : 0;
     fm->tracing = traceFile != 0;
     fm->arm(ph, k, exc);
     Result r;
@@ -504,10 +577,197 @@ static void report(long k, const char* phase, const std::string& raw, int status
     std::cout << o.str();
 }
 
+static void report(long k, const char* phase, const std::string& raw, int status);
+static std::string drain(int fd);
+
+// Read-only access to the private lists of XalanDOMStringCache and to the block list of its string allocator (explicit
+// instantiation may name private members; no header is changed and the layout is the library's own).
+template<class Tag, typename Tag::type M>
+struct Rob { friend typename Tag::type robGet(Tag) { return M; } };
+typedef ReusableArenaAllocator<XalanDOMString>                              StrArenaType;
+typedef ArenaAllocator<XalanDOMString, ReusableArenaBlock<XalanDOMString> > StrArenaBaseType;
+struct TagAvail  { typedef XalanDOMStringCache::StringListType XalanDOMStringCache::*type;       friend type robGet(TagAvail); };
+struct TagBusy   { typedef XalanDOMStringCache::StringListType XalanDOMStringCache::*type;       friend type robGet(TagBusy); };
+struct TagAlloc  { typedef XalanDOMStringReusableAllocator XalanDOMStringCache::*type;           friend type robGet(TagAlloc); };
+struct TagArena  { typedef StrArenaType XalanDOMStringReusableAllocator::*type;                   friend type robGet(TagArena); };
+struct TagBlocks { typedef StrArenaBaseType::ArenaBlockListType StrArenaBaseType::*type;          friend type robGet(TagBlocks); };
+template struct Rob<TagAvail, &XalanDOMStringCache::m_availableList>;
+template struct Rob<TagBusy, &XalanDOMStringCache::m_busyList>;
+template struct Rob<TagAlloc, &XalanDOMStringCache::m_allocator>;
+template struct Rob<TagArena, &XalanDOMStringReusableAllocator::m_allocator>;
+template struct Rob<TagBlocks, &StrArenaBaseType::m_blocks>;
+
+static std::string cacheState(XalanDOMStringCache& c, const FaultManager& fm, const char* word)
+{
+    StrArenaBaseType& arena = c.*robGet(TagAlloc()).*robGet(TagArena());
+    StrArenaBaseType::ArenaBlockListType& blocks = arena.*robGet(TagBlocks());
+    size_t alive = 0;
+    for (StrArenaBaseType::ArenaBlockListType::iterator i = blocks.begin(); i != blocks.end(); ++i)
+        alive += (*i)->getCountAllocated();
+    std::ostringstream o;
+    o << "sc " << word << " avail=" << (c.*robGet(TagAvail())).size() << " busy=" << (c.*robGet(TagBusy())).size()
+      << " alive=" << alive << " bad=" << (fm.dbl + fm.foreign) << "\n";
+    return o.str();
+}
+
+// c19_memmgr cache <max> <op>...     op: g | r<handle> | R | C
+// One real XalanDOMStringCache (bound <max>) driven through a history; every string handed out is filled (it owns a buffer),
+// so a string destroyed twice is a buffer released twice.  After every call: sizes of the two lists, strings alive in the
+// allocator, bad frees so far; at the end the cache is destroyed.
+static int cacheCommand(int argc, char** argv)
+{
+    int fds[2];
+    if (pipe(fds) != 0) return 2;
+    std::cout.flush();
+    pid_t pid = fork();
+    if (pid == 0)
+    {
+        ::close(fds[0]);
+        g_out = fds[1];
+        int devnull = ::open("/dev/null", 1);
+        if (devnull >= 0) { dup2(devnull, 2); dup2(devnull, 1); }
+        std::set_terminate(onTerminate);
+        signal(SIGSEGV, onSignal); signal(SIGBUS, onSignal);
+        alarm(60);
+        FaultManager* fm = new FaultManager;
+        fm->phase = P_TRANSFORM;
+        {
+            void* mem = std::malloc(sizeof(XalanDOMStringCache));
+            XalanDOMStringCache* c = ::new (mem) XalanDOMStringCache(*fm, XalanSize_t(atol(argv[2])));
+            std::vector<XalanDOMString*> handles;
+            emit(cacheState(*c, *fm, "new"));
+            for (int a = 3; a < argc; ++a)
+            {
+                const char* op = argv[a];
+                std::string word = "ok";
+                if (op[0] == 'g')
+                {
+                    XalanDOMString& s = c->get();
+                    s.assign("0123456789012345678901234567890123456789");
+                    handles.push_back(&s);
+                }
+                else if (op[0] == 'r')
+                {
+                    size_t h = size_t(atol(op + 1));
+                    word = (h < handles.size() && c->release(*handles[h])) ? "true" : "false";
+                }
+                else if (op[0] == 'R') c->reset();
+                else if (op[0] == 'C') c->clear();
+                emit(cacheState(*c, *fm, word.c_str()));
+            }
+            c->~XalanDOMStringCache();
+        }
+        std::ostringstream o;
+        o << "destroyed live=" << fm->live.size() << " bad=" << (fm->dbl + fm->foreign) << "\n";
+        emit(o.str());
+        stage("done");
+        _exit(0);
+    }
+    ::close(fds[1]);
+    std::string raw = drain(fds[0]);
+    int status = 0;
+    waitpid(pid, &status, 0);
+    // one line per call, as the child wrote them; a child that died is reported as such
+    std::cout << raw;
+    if (!(WIFEXITED(status) && WEXITSTATUS(status) == 0))
+        std::cout << "died " << (WIFSIGNALED(status) ? WTERMSIG(status) : -WEXITSTATUS(status)) << "\n";
+    std::cout.flush();
+    return 0;
+}
+
+// c19_memmgr init <xsl> <xml> <from> <to> <jobs> <expected-outhash>
+// Global initialisation under a refusing manager (XalanTransformer::initialize(mgr): XSLTInit + its guards, "two-phase global
+// initialisation with rollback"): for every k the k-th request of initialize() is refused in a fresh process; the application then
+// retries initialize() (nothing refused), runs the scenario with an ordinary transformer, and terminates.  k = 0: nothing refused.
+// Must run BEFORE any global initialisation of this process.
+static int initCommand(int argc, char** argv)
+{
+    Scenario sc; sc.xsl = slurp(argv[2]); sc.xml = slurp(argv[3]); sc.direct = false;
+    long from = atol(argv[4]), to = atol(argv[5]); int jobs = atoi(argv[6]);
+    unsigned long expect = strtoul(argv[7], 0, 10);
+    std::vector<std::pair<pid_t, std::pair<int, long> > > running;
+    long next = from;
+    while (next <= to || !running.empty())
+    {
+        while (next <= to && int(running.size()) < jobs)
+        {
+            int fds[2];
+            if (pipe(fds) != 0) return 2;
+            std::cout.flush();
+            pid_t pid = fork();
+            if (pid == 0)
+            {
+                ::close(fds[0]);
+                g_out = fds[1];
+                int devnull = ::open("/dev/null", 1);
+                if (devnull >= 0) { dup2(devnull, 1); dup2(devnull, 2); }
+                std::set_terminate(onTerminate);
+                signal(SIGSEGV, onSignal); signal(SIGBUS, onSignal); signal(SIGFPE, onSignal);
+                alarm(60);
+                xercesc::XMLPlatformUtils::Initialize();
+                FaultManager* fm = new FaultManager;
+                fm->phase = P_CTOR;
+                fm->arm(P_CTOR, next, FaultManager::EXC_OOM);
+                stage("init");
+                std::string first = guarded([&]() { XalanTransformer::initialize(*fm); return 0; });
+                std::string second = "-";
+                if (first != "ok")
+                {
+                    stage("retry");
+                    fm->failAt = 0;
+                    second = guarded([&]() { XalanTransformer::initialize(*fm); return 0; });
+                }
+                const long nInit = fm->allocs[P_CTOR];
+                std::string work = "skipped"; unsigned long h = 0;
+                if (first == "ok" || second == "ok")
+                {
+                    stage("use");
+                    std::ostringstream warn;
+                    FaultManager* m2 = new FaultManager;
+                    Result r;
+                    runScenario(*m2, sc, r, &warn);
+                    work = r.what[P_TRANSFORM]; h = hashOf(r.output);
+                    stage("terminate");
+                    fm->phase = P_DESTROY;
+                    XalanTransformer::terminate();
+                }
+                std::ostringstream o;
+                o << "init1=" << first << " init2=" << second << " n_init=" << nInit << " work=" << work
+                  << " same=" << (h == expect ? 1 : 0) << " live=" << fm->live.size() << " foreign=" << fm->foreign
+                  << " double=" << fm->dbl << "\n";
+                emit(o.str());
+                if (fm->recordSites)
+                    for (std::unordered_map<void*, long>::const_iterator li = fm->live.begin(); li != fm->live.end(); ++li)
+                        emit("leaksite=" + fm->sites[li->second] + "\n");
+                stage("done");
+                _exit(0);
+            }
+            ::close(fds[1]);
+            running.push_back(std::make_pair(pid, std::make_pair(fds[0], next)));
+            ++next;
+        }
+        int status = 0;
+        pid_t done = waitpid(-1, &status, 0);
+        if (done < 0) break;
+        for (size_t i = 0; i < running.size(); ++i)
+            if (running[i].first == done)
+            {
+                std::string raw = drain(running[i].second.first);
+                ::close(running[i].second.first);
+                report(running[i].second.second, "init", raw, status);
+                running.erase(running.begin() + long(i));
+                break;
+            }
+    }
+    std::cout.flush();
+    return 0;
+}
+
 int main(int argc, char** argv)
 {
     if (argc < 2) { std::fprintf(stderr, "usage\n"); return 2; }
     std::string cmd = argv[1];
+    if (cmd == "init" && argc >= 8) return initCommand(argc, argv);
     xercesc::XMLPlatformUtils::Initialize();
     XalanTransformer::initialize();
     int rc = 0;
@@ -536,6 +796,8 @@ int main(int argc, char** argv)
         for (int round = 0; round < 2; ++round)
         {
             FaultManager fm;
+            FaultManager other;
+            g_other = sc.cross ? &other : 0;
             fm.tracing = traceFile != 0 && round == 1;
             fm.recordArena = round == 1;
             Result r;
@@ -581,7 +843,9 @@ int main(int argc, char** argv)
         int ph = phaseOf(argv[5]);
         if (ph <= 0) { std::fprintf(stderr, "bad phase\n"); return 2; }
         long from, to; int jobs; int exc; const char* traceFile = 0;
-        if (cmd == "sweep") { from = atol(argv[6]); to = atol(argv[7]); jobs = atoi(argv[8]); exc = std::string(argv[9]) == "badalloc"; }
+        long stride = 1;            // sweep ... [stride]: indices from, from+stride, ... (a sample of a large phase)
+        if (cmd == "sweep") { from = atol(argv[6]); to = atol(argv[7]); jobs = atoi(argv[8]); exc = std::string(argv[9]) == "badalloc";
+                              if (argc >= 11 && atol(argv[10]) > 1) stride = atol(argv[10]); }
         else { from = to = atol(argv[6]); jobs = 1; exc = std::string(argv[7]) == "badalloc"; traceFile = argv[8]; }
         // expected output: a clean in-process run (also warms caches exactly as `count` does)
         unsigned long expect = 0;
@@ -591,7 +855,10 @@ int main(int argc, char** argv)
             for (int round = 0; round < 2; ++round)
             {
                 FaultManager fm; Result r;
+                FaultManager other;
+                g_other = sc.cross ? &other : 0;
                 runScenario(fm, sc, r, &warn);
+                g_other = 0;
                 expect = hashOf(r.output);
                 g_base = r;
             }
@@ -623,7 +890,7 @@ int main(int argc, char** argv)
                 ::close(fds[1]);
                 Running ru; ru.pid = pid; ru.fd = fds[0]; ru.k = next;
                 running.push_back(ru);
-                ++next;
+                next += stride;
             }
             int status = 0;
             pid_t done = waitpid(-1, &status, 0);
@@ -662,6 +929,7 @@ int main(int argc, char** argv)
             alarm(120);
             FaultManager* fm = new FaultManager;
             fm->tracing = std::strcmp(traceFile, "-") != 0;
+            g_other = new FaultManager;         // manager MA of the "cross" steps of this history
             std::ostringstream warn;
             for (int a = 4; a + 4 < argc; a += 5)
             {
@@ -684,6 +952,138 @@ int main(int argc, char** argv)
         int status = 0;
         waitpid(pid, &status, 0);
         report(0, "seq", raw, status);
+    }
+    else if (cmd == "xpe" && argc >= 4)
+    {
+        // c19_memmgr xpe <xml> <k> <expr>...
+        // The document is parsed under manager M1 (XalanSourceTreeParserLiaison); an XPathEvaluator made under manager M2
+        // evaluates the expressions on it (XObjects, node lists and strings of M2 over nodes of M1); request #k of M2 is
+        // refused once (k = 0: nothing refused).  The evaluator goes first, then the liaison.  Each manager has its own
+        // ledger: a block released to the other manager is a foreign release there and a leak here.
+        const std::string xml = slurp(argv[2]);
+        const long k = atol(argv[3]);
+        int fds[2];
+        if (pipe(fds) != 0) return 2;
+        std::cout.flush();
+        pid_t pid = fork();
+        if (pid == 0)
+        {
+            ::close(fds[0]);
+            g_out = fds[1];
+            int devnull = ::open("/dev/null", 1);
+            if (devnull >= 0) { dup2(devnull, 2); dup2(devnull, 1); }
+            std::set_terminate(onTerminate);
+            signal(SIGSEGV, onSignal); signal(SIGBUS, onSignal);
+            alarm(60);
+            FaultManager* m1 = new FaultManager;
+            FaultManager* m2 = new FaultManager;
+            m1->phase = P_PARSE; m2->phase = P_TRANSFORM;
+            m2->arm(k ? P_TRANSFORM : P_NONE, k, FaultManager::EXC_OOM);
+            std::string result, how;
+            {
+                XalanSourceTreeDOMSupport       dom;
+                XalanSourceTreeParserLiaison    liaison(dom, *m1);
+                dom.setParserLiaison(&liaison);
+                xercesc::MemBufInputSource is(reinterpret_cast<const XMLByte*>(xml.data()), xml.size(), "mem");
+                XalanDocument* const doc = liaison.parseXMLStream(is);
+                how = guarded([&]()
+                {
+                    XPathEvaluator ev(*m2);
+                    for (int a = 4; a < argc; ++a)
+                    {
+                        const XalanDOMString expr(argv[a], *m2);
+                        bool isNodeSet = false;
+                        {
+                            const XObjectPtr r(ev.evaluate(dom, doc, expr.c_str(), doc->getDocumentElement()));
+                            isNodeSet = r->getType() == XObject::eTypeNodeSet;
+                            XalanDOMString s(*m2);
+                            r->str(s);
+                            CharVectorType v(*m2);
+                            s.transcode(v);
+                            result.append(v.begin(), v.end()); result += '|';
+                        }
+                        if (!isNodeSet) continue;
+                        NodeRefList nl(*m2);
+                        ev.selectNodeList(nl, dom, doc, expr.c_str(), doc->getDocumentElement());
+                        std::ostringstream n; n << nl.getLength() << ';';
+                        result += n.str();
+                    }
+                    return 0;
+                });
+            }
+            std::ostringstream o;
+            o << "xpe=" << how << " fired=" << (m2->fired ? 1 : 0) << " n=" << m2->allocs[P_TRANSFORM] << " outhash=" << hashOf(result)
+              << " live1=" << m1->live.size() << " foreign1=" << m1->foreign << " double1=" << m1->dbl
+              << " live2=" << m2->live.size() << " foreign2=" << m2->foreign << " double2=" << m2->dbl << "\n";
+            emit(o.str());
+            stage("done");
+            _exit(0);
+        }
+        ::close(fds[1]);
+        std::string raw = drain(fds[0]);
+        int status = 0;
+        waitpid(pid, &status, 0);
+        report(k, "xpe", raw, status);
+    }
+    else if (cmd == "cache" && argc >= 3)
+    {
+        return cacheCommand(argc, argv);
+    }
+    else if (cmd == "liaison" && argc >= 4)
+    {
+        // c19_memmgr liaison <xml> <xalandoc|xercesdoc|reset> [ndocs]
+        // XercesParserLiaison used directly under one manager: parse n documents (the liaison owns the Xerces DOM documents it
+        // parses), hand the first one back through destroyDocument(), then destroy the liaison.  Reported: blocks outstanding
+        // after the liaison is gone, and how many blocks destroyDocument() itself released (a document it owns must go with it).
+        const std::string xml = slurp(argv[2]);
+        const std::string variant = argv[3];
+        const int ndocs = argc >= 5 ? atoi(argv[4]) : 1;
+        int fds[2];
+        if (pipe(fds) != 0) return 2;
+        std::cout.flush();
+        pid_t pid = fork();
+        if (pid == 0)
+        {
+            ::close(fds[0]);
+            g_out = fds[1];
+            int devnull = ::open("/dev/null", 1);
+            if (devnull >= 0) { dup2(devnull, 2); dup2(devnull, 1); }
+            std::set_terminate(onTerminate);
+            signal(SIGSEGV, onSignal); signal(SIGBUS, onSignal);
+            alarm(60);
+            FaultManager* fm = new FaultManager;
+            fm->phase = P_PARSE;
+            size_t before = 0, after = 0, withOne = 0;
+            std::string how = guarded([&]()
+            {
+                XercesParserLiaison liaison(*fm);
+                std::vector<XalanDocument*> docs;
+                for (int i = 0; i < ndocs; ++i)
+                {
+                    xercesc::MemBufInputSource is(reinterpret_cast<const XMLByte*>(xml.data()), xml.size(), "mem");
+                    if (i == 0) withOne = fm->live.size();
+                    docs.push_back(liaison.parseXMLStream(is));
+                    if (i == 0) withOne = fm->live.size() - withOne;       // blocks one parsed document accounts for
+                }
+                before = fm->live.size();
+                if (variant == "xalandoc") liaison.destroyDocument(docs[0]);
+                else if (variant == "xercesdoc")
+                    liaison.destroyDocument(const_cast<xercesc::DOMDocument*>(liaison.mapDocumentToWrapper(docs[0])->getXercesDocument()));
+                after = fm->live.size();
+                return 0;
+            });
+            std::ostringstream o;
+            o << "liaison=" << how << " docblocks=" << withOne << " released=" << (before - after) << " live=" << fm->live.size()
+              << " foreign=" << fm->foreign << " double=" << fm->dbl << "\n";
+            emit(o.str());
+            stage("done");
+            _exit(0);
+        }
+        ::close(fds[1]);
+        std::string raw = drain(fds[0]);
+        int status = 0;
+        waitpid(pid, &status, 0);
+        report(0, "liaison", raw, status);
     }
     else if (cmd == "enc" && argc >= 4)
     {
